@@ -1,8 +1,8 @@
 #!/bin/sh
-# tools/run_all.sh [tier] [seed]  - run every registered check once, print rc and wall time
-TIER=${1:-quick}; SEED=${2:-0}
+# tools/run_all.sh [tier] [seed] ["01 02 ..."]  - run every (or the listed) registered check once, print rc and wall time
+TIER=${1:-quick}; SEED=${2:-0}; IDS=${3:-01 02 03 04 05 06 07 08 09 10 11 12 13 14 15 16 17 18 19}
 cd "$(dirname "$0")/.."
-for i in 01 02 03 04 05 06 07 08 09 10 11 12 13 14 15 16 17 18 19; do
+for i in $IDS; do
   s=$(date +%s.%N)
   out=$(VERIF_SEED=$SEED ./check C$i --tier $TIER 2>&1); rc=$?
   e=$(date +%s.%N)
